@@ -138,7 +138,7 @@ def run(prop: str, tier: str, seed: int) -> int:
                 for key, plans in groups.items():
                     eo = objs[key]
                     for k in range(0, len(plans), 700):
-                        cases.append({"id": f"all2-r{rounds}-{len(cases)}", "cfg": dict(key), "ub": small(eo.ub),
+                        cases.append({"id": f"all2-r{rounds}-{len(cases)}", "cfg": {**dict(key), "stored": tp.stored_cfg(eo.inst)}, "ub": small(eo.ub),
                                       "plans": [{"plan": p, "errors": small(eo.eval(p))}
                                                 for p in plans[k:k + 700]]})
             finally:
